@@ -337,6 +337,14 @@ func (w *World) execUnmark(op Op) {
 		w.c.Fail("c17.unmark-succeeds", "error", "MarkHeaderNotInvalid(n%d) failed: %s", n.Serial, err)
 	}
 	delete(w.marked, n.Hash)
+	if op.B == 1 {
+		// the unmarking must survive a restart as well: Save, reload, and only then offer the header again
+		w.c.Probe("unmark-then-restart-before-resubmission")
+		w.execReload(Op{K: "reload"})
+		if w.c.Stopped() {
+			return
+		}
+	}
 	for _, x := range append([]*model.Node(nil), w.m.All...) {
 		if model.IsAncestorOrEqual(n, x) && !w.underMarked(x) && x.EverAccepted {
 			if x.Parent != nil && x.Parent.Accepted {
